@@ -84,7 +84,12 @@ def sampling(repo, chk):
             vt = ast.unparse(v)
             cn = Canon(m, Scope(fn), inline=True)
             vterm = cn.t(v)
-            lens = [('call', ('name', 'len'), (vterm,), ()), ('attr', vterm, 'size'), ('sub', ('attr', vterm, 'shape'), ('num', 0))]
+            lens = [('call', ('name', 'len'), (vterm,), ()), ('attr', vterm, 'size')]
+            # a prefix W[:K] with K = min(len(W), q) has exactly K entries
+            if vterm[0] == 'sub' and vterm[2][0] == 'slice' and vterm[2][1] == ('none',) and vterm[2][3] == ('none',):
+                W, K = vterm[1], vterm[2][2]
+                if K[0] == 'call' and K[1] == ('name', 'min') and len(K[2]) == 2 and not K[3] and (('call', ('name', 'len'), (W,), ()) in K[2] or ('attr', W, 'size') in K[2]):
+                    lens.append(K)
             ups = [cn._add([('name', c), l]) for l in lens]
             if cursor != c or up not in ups:
                 ok_cursor, why = False, f'slice store {ast.unparse(st.targets[0])} does not end at cursor + len(stored values)'
@@ -172,43 +177,116 @@ def sampling(repo, chk):
     sc = Scope(fn)
     n_expr = f'int({rp} * len({Xp}))'
     quota_t = E(f'int({n_expr} / len({vp}))')
-    # the early return
-    early = [n for n in own_nodes(fn.node) if isinstance(n, ast.If) and any(isinstance(x, ast.Return) for x in n.body)]
-    ok_early = False
+    ZERO_FORMS = [('cmp', '==', ('num', 0), quota_t), ('cmp', '==', quota_t, ('num', 0)), ('cmp', '<', quota_t, ('num', 1)), ('cmp', '<=', quota_t, ('num', 0)), ('not', quota_t)]
+    POS_FORMS = [('cmp', '!=', ('num', 0), quota_t), ('cmp', '!=', quota_t, ('num', 0)), ('cmp', '<', ('num', 0), quota_t), ('cmp', '<=', ('num', 1), quota_t), quota_t]
+    loops = [n for n in own_nodes(fn.node) if isinstance(n, ast.For) and term_of(fn, n.iter, inline=True) in (('name', vp), E(f'enumerate({vp})'), E(f'range(len({vp}))'))]
+    mentions_quota = lambda t: any(x == quota_t for x in walk_term(t))
+    # (a) an early return of the inputs when the quota is 0, or (b) the whole sampling block guarded by quota != 0 and the inputs returned otherwise
+    early = [n for n in fn.node.body if isinstance(n, ast.If) and any(isinstance(x, ast.Return) for x in n.body)]
+    verdict, site, shown = None, fn.site(), 'if quota == 0: return Y, X'
     for e in early:
         t = term_of(fn, e.test, inline=True)
         r = [x for x in e.body if isinstance(x, ast.Return)][0]
-        if t == ('cmp', '==', ('num', 0), quota_t) or t == ('cmp', '==', quota_t, ('num', 0)) or t == ('cmp', '<', quota_t, ('num', 1)):
-            ok_early = isinstance(r.value, ast.Tuple) and [ast.unparse(x) for x in r.value.elts] == [Yp, Xp]
-    chk.expect(ok_early, 'C04.3a', 'R15', fn.site(early[0]) if early else fn.site(), ast.unparse(early[0].test) if early else 'if quota == 0: return Y, X', 'quota 0 -> all rows are used (inputs returned unchanged)',
-               'when the per-value quota int(int(r*n)/#values) is 0 the inputs must be returned unchanged')
-    # the selection inside the loop over the values
-    loops = [n for n in own_nodes(fn.node) if isinstance(n, ast.For)]
-    sel_ok = False
+        if t in ZERO_FORMS:
+            same = isinstance(r.value, ast.Tuple) and [ast.unparse(x) for x in r.value.elts] == [Yp, Xp] and len(e.body) == 1
+            verdict, site, shown = ('ok' if same else 'bad'), fn.site(e), ast.unparse(e.test)
+        elif mentions_quota(t) and verdict is None:
+            verdict, site, shown = 'unsure', fn.site(e), ast.unparse(e.test)
+    if verdict is None and loops:
+        # guards around the sampling loop
+        cur = par.get(loops[0])
+        prev = loops[0]
+        while cur is not None and cur is not fn.node and verdict is None:
+            if isinstance(cur, ast.If):
+                t = term_of(fn, cur.test, inline=True)
+                positive = prev in cur.body
+                forms = POS_FORMS if positive else ZERO_FORMS
+                if t in forms:
+                    # on the other side nothing may touch X / Y before the return
+                    other = cur.orelse if positive else cur.body
+                    rebinds = [x for blk in [other] for st_ in blk for x in ast.walk(st_) if isinstance(x, ast.Name) and isinstance(x.ctx, ast.Store) and x.id in (Xp, Yp)]
+                    verdict, site, shown = ('ok' if not rebinds else 'bad'), fn.site(cur), ast.unparse(cur.test)
+                elif mentions_quota(t):
+                    verdict, site, shown = 'unsure', fn.site(cur), ast.unparse(cur.test)
+            prev, cur = cur, par.get(cur)
+    if verdict == 'ok':
+        chk.ok('C04.3a', 'R15', site, shown, 'quota 0 -> all rows are used (inputs returned unchanged)')
+    elif verdict == 'unsure' or (verdict is None and not loops):
+        chk.unsure('C04.3a', 'R15', site, shown, 'a test on the per-value quota exists but is not one of the recognised forms of `quota == 0`')
+    else:
+        chk.bad('C04.3a', 'R15', site, shown, 'when the per-value quota int(int(r*n)/#values) is 0 the inputs must be returned unchanged' + ('' if verdict == 'bad' else ' (no test of the quota guards the sampling loop)'))
+    # the selection inside the loop over the values: what is stored into the index buffer
+    sel_ok = None
+    sel_site, sel_txt = fn.site(), f'np.where({Xp} == v)[0][:quota] for v in {vp}'
     for lp in loops:
-        if term_of(fn, lp.iter, inline=False) != ('name', vp) or not isinstance(lp.target, ast.Name):
+        if isinstance(lp.target, ast.Name) and term_of(fn, lp.iter, inline=True) == ('name', vp):
+            v = ('name', lp.target.id)
+        elif isinstance(lp.target, ast.Tuple) and len(lp.target.elts) == 2 and isinstance(lp.target.elts[1], ast.Name):
+            v = ('name', lp.target.elts[1].id)
+        elif isinstance(lp.target, ast.Name):
+            v = ('sub', ('name', vp), ('name', lp.target.id))
+        else:
             continue
-        v = lp.target.id
-        for n in ast.walk(lp):
-            if isinstance(n, ast.Assign) and isinstance(n.targets[0], ast.Name):
-                t = Canon(m, Scope(None), inline=False, bound={k: term_of(fn, ast.Name(k, ast.Load()), inline=True) for k in sc.defs if sc.single_def(k) is not None}).t(n.value)
-                if t == E(f'numpy.where({Xp} == {v})[0][:{"QUOTA"}]'.replace('QUOTA', 'Q')) :
-                    pass
-                want = expected_term(m, f'numpy.where({Xp} == {v})[0][:Q]', {'Q': quota_t})
-                if t == want:
-                    sel_ok = True
-                    chk.ok('C04.3b', 'R15', fn.site(n), ast.unparse(n), 'per stratum: the first quota rows carrying the value, quota = int(int(r*n)/#values)')
-    if not sel_ok:
-        chk.bad('C04.3b', 'R15', fn.site(), f'np.where({Xp} == v)[0][:quota] for v in {vp}', 'the per-stratum selection must be the prefix np.where(X == v)[0][:int(int(r*n)/#values)] for every distinct target value')
+        W = expected_term(m, f'numpy.where({Xp} == V)[0]', {'V': v})
+        lenW = ('call', ('name', 'len'), (W,), ())
+        good = [('sub', W, ('slice', ('none',), quota_t, ('none',))),
+                ('sub', W, ('slice', ('none',), ('call', ('name', 'min'), (lenW, quota_t), ()), ('none',))), ('sub', W, ('slice', ('none',), ('call', ('name', 'min'), (quota_t, lenW), ()), ('none',))),
+                ('sub', W, ('slice', ('num', 0), quota_t, ('none',)))]
+        cands = [n for n in ast.walk(lp) if isinstance(n, ast.Assign) and (isinstance(n.targets[0], ast.Subscript) or isinstance(n.targets[0], ast.Name))]
+        for n in cands:
+            t = term_of(fn, n.value, inline=True)
+            if t in good:
+                sel_ok = True
+                sel_site, sel_txt = fn.site(n), ast.unparse(n)
+                break
+            if isinstance(n.targets[0], ast.Subscript) and any(x == W for x in walk_term(t)) and sel_ok is None:
+                # rows of the stratum are stored, but not as the quota-long prefix
+                sel_ok = False
+                sel_site, sel_txt = fn.site(n), ast.unparse(n)
+        if sel_ok:
+            break
+    if sel_ok:
+        chk.ok('C04.3b', 'R15', sel_site, sel_txt, 'per stratum: the first quota rows carrying the value, quota = int(int(r*n)/#values)')
+    elif sel_ok is False:
+        chk.bad('C04.3b', 'R15', sel_site, sel_txt, 'the per-stratum selection must be the prefix np.where(X == v)[0][:int(int(r*n)/#values)] for every distinct target value')
+    else:
+        chk.unsure('C04.3b', 'R15', sel_site, sel_txt, 'no store of the rows np.where(X == v)[0] of a stratum was recognised in the loop over the distinct target values')
     # 4: same index for both gathers; return order
-    rets = [r for r in returns(fn) if r not in [x for e in early for x in e.body]]
-    idx_names = {g.slice.id for g in gathers}
-    gx = [g for g in gathers if g.value.id == Xp]
-    gy = [g for g in gathers if g.value.id == Yp]
-    ok_g = len(gx) == 1 and len(gy) == 1 and len(idx_names) == 1
-    chk.expect(ok_g, 'C04.4a', 'R6', fn.site(gx[0]) if gx else fn.site(), f'{[ast.unparse(g) for g in gathers]}', 'X and Y are restricted to the same rows', 'X and Y must each be gathered once, with the same index array')
-    ok_r = len(rets) == 1 and isinstance(rets[0].value, ast.Tuple) and [ast.unparse(x) for x in rets[0].value.elts] == [Yp, Xp]
-    chk.expect(ok_r, 'C04.4b', 'R6', fn.site(rets[0]) if rets else fn.site(), ast.unparse(rets[0]) if rets else 'return Y, X', 'returns (Y, X) in parameter order', 'the sampler must return (Y, X) in the order of its parameters')
+    def gather_of(e):
+        """(param, index term) for P[idx] / np.take(P, idx) / P.take(idx)"""
+        if isinstance(e, ast.Subscript) and isinstance(e.value, ast.Name) and e.value.id in (Xp, Yp) and not isinstance(e.slice, ast.Slice):
+            return e.value.id, term_of(fn, e.slice, inline=True)
+        if isinstance(e, ast.Call) and (m.dotted(e.func) or '') == 'numpy.take' and len(e.args) == 2 and isinstance(e.args[0], ast.Name) and e.args[0].id in (Xp, Yp):
+            return e.args[0].id, term_of(fn, e.args[1], inline=True)
+        if isinstance(e, ast.Call) and isinstance(e.func, ast.Attribute) and e.func.attr == 'take' and isinstance(e.func.value, ast.Name) and e.func.value.id in (Xp, Yp) and len(e.args) == 1:
+            return e.func.value.id, term_of(fn, e.args[0], inline=True)
+        return None
+    early_rets = {id(x) for e in early for x in ast.walk(e) if isinstance(x, ast.Return)}
+    loop_vars = {x.id for lp_ in own_nodes(fn.node) if isinstance(lp_, ast.For) for x in ast.walk(lp_.target) if isinstance(x, ast.Name)}
+    gl = [(n, gather_of(n)) for n in own_nodes(fn.node) if isinstance(n, (ast.Subscript, ast.Call)) and gather_of(n) is not None and not (isinstance(n, ast.Subscript) and isinstance(n.ctx, ast.Store))
+          and not (isinstance(n, ast.Subscript) and isinstance(n.slice, ast.Name) and n.slice.id in loop_vars)]      # X[i] inside a scan loop reads one element, it is not a gather
+    gx = [g for g in gl if g[1][0] == Xp]
+    gy = [g for g in gl if g[1][0] == Yp]
+    if not gx and not gy:
+        chk.unsure('C04.4a', 'R6', fn.site(), 'X[idx], Y[idx]', 'no gather of X / Y by an index array was recognised')
+    else:
+        ok_g = len(gx) == 1 and len(gy) == 1 and gx[0][1][1] == gy[0][1][1]
+        chk.expect(ok_g, 'C04.4a', 'R6', fn.site(gx[0][0]) if gx else fn.site(), f'{[ast.unparse(g[0]) for g in gl]}', 'X and Y are restricted to the same rows', 'X and Y must each be gathered once, with the same index array')
+    rets = [r for r in returns(fn) if id(r) not in early_rets]
+    def role(e):
+        if isinstance(e, ast.Name) and e.id in (Xp, Yp):
+            return e.id
+        g = gather_of(e)
+        return g[0] if g else None
+    if len(rets) >= 1 and all(isinstance(r.value, ast.Tuple) and len(r.value.elts) == 2 for r in rets):
+        roles = [[role(x) for x in r.value.elts] for r in rets]
+        if all(None not in ro for ro in roles):
+            ok_r = all(ro == [Yp, Xp] for ro in roles)
+            chk.expect(ok_r, 'C04.4b', 'R6', fn.site(rets[0]), ast.unparse(rets[0]), 'returns (Y, X) in parameter order', 'the sampler must return (Y, X) in the order of its parameters')
+        else:
+            chk.unsure('C04.4b', 'R6', fn.site(rets[0]), ast.unparse(rets[0]), 'cannot tell which returned element is the Y sample and which the X sample')
+    else:
+        chk.unsure('C04.4b', 'R6', fn.site(), 'return Y, X', 'unexpected return shape of the sampler')
     # 5: determinism
     bad = []
     for c in calls(fn):
@@ -348,8 +426,8 @@ def estimator(repo, chk):
         ok_args = False
         if nname and uname:
             u = uname[0].strip('()').split(', ')
-            ok_args = args[:2] == [Xp, Yp] and args[2] == nname[0] and args[3:5] == u and args[5] == cp and ce[0].lineno > s0.lineno
-        chk.expect(ok_args, 'C04.7c', 'R6', fn.site(ce[0]), ast.unparse(ce[0]), 'entropies are computed on the sample with the original N, values and counts', 'compute_entropies must receive (X, Y, len(full X), values(full X), counts(full X), flag) after the sampling')
+            ok_args = args[:2] == [Xp, Yp] and args[2] == nname[0] and args[3:5] == u and ce[0].lineno > s0.lineno
+        chk.expect(ok_args, 'C04.7c', 'R6', fn.site(ce[0]), ast.unparse(ce[0]), 'entropies are computed on the sample with the original N, values and counts', 'compute_entropies must receive (X, Y, len(full X), values(full X), counts(full X), ...) after the sampling')
         rt = term_of(fn, rets[0].value, inline=True)
         ct = term_of(fn, ce[0], inline=True)
         chk.expect(rt == ('*', tuple(sorted([('name', rp), ct], key=repr))), 'C04.7d', 'R15', fn.site(rets[0]), ast.unparse(rets[0]), 'result = r * (entropy combination on the sample)', f'the estimate must be scaled by the ratio exactly once; found {show(rt)[:120]}')
